@@ -75,6 +75,39 @@ theorem queue_nonempty_implies_no_capacity (σ : St) (h : Reach σ) (hc : σ.clo
   · exact absurd h1 hne
   · exact h1
 
+/-- The capacity test counts what hyper-h2 — and hence the server — still considers open (`open_outbound_streams`),
+    not the streams mitmproxy keeps book of (`Http2Connection.streams`, which is only pruned when the SERVER ends or
+    resets a stream): a stream the proxy resets upstream itself (a forwarded client RST_STREAM) is closed at once and
+    frees its slot, whatever the server does afterwards.  Together with `queue_nonempty_implies_no_capacity` (`noFree` is
+    `limit ≤ conn.openCount`): a queued stream is left waiting only while the server's own count is at the limit. -/
+theorem reset_frees_slot (σ : St) (o : Nat) :
+    (σ.process o .err).conn.closedS o = true ∧
+    (σ.noFree = decide (σ.limit ≤ (σ.conn.streams.filter (fun p => !p.2.closed)).length)) := by
+  refine ⟨?_, rfl⟩
+  simp only [St.process]
+  by_cases hc : σ.conn.closedS o = true
+  · simp [hc]
+  · simp only [hc, Bool.not_false, if_true]
+    unfold Conn.closedS at hc ⊢
+    have hd : σ.conn.dead = false := by
+      cases h : σ.conn.dead with
+      | false => rfl
+      | true => simp [h] at hc
+    cases hg : σ.conn.getS o with
+    | none => simp [hg] at hc
+    | some st =>
+      have hdead : (σ.conn.resetStream o).dead = σ.conn.dead := by
+        unfold Conn.resetStream; exact dead_updS _ o _
+      have hget : (σ.conn.resetStream o).getS o = some { st with rst := true } := by
+        unfold Conn.resetStream
+        show (Conn.updS _ o _).getS o = _
+        rw [getS_updS]
+        simp only [if_true]
+        have : ({ σ.conn with bufs := aerase o σ.conn.bufs } : Conn).getS o = some st := hg
+        rw [this]; rfl
+      rw [hdead, hd, hget]
+      simp [Stream.closed]
+
 /-- An upstream stream is only ever opened while fewer streams are open than the limit in force at that moment
     (the server's MAX_CONCURRENT_STREAMS once its SETTINGS have arrived, the provisional 10 before). -/
 theorem open_le_limit (σ : St) (h : Reach σ) (hc : σ.closed = false) :
